@@ -34,7 +34,7 @@ def local_names(fn):
 
 def main():
     root = sys.argv[1] if len(sys.argv) > 1 else "/repo"
-    inv = {"functions": [], "module_names": {}, "class_names": {}, "nested": [], "locals": {}}
+    inv = {"functions": [], "module_names": {}, "class_names": {}, "nested": [], "locals": {}, "instance_attrs": {}}
     pkg = os.path.join(root, "bromelia")
     for dp, dn, fn in os.walk(pkg):
         dn[:] = [d for d in dn if d != "__pycache__"]
@@ -71,6 +71,16 @@ def main():
                             cn.add(b.target.id)
                     key = f"{mod}.{s.name}"
                     inv["class_names"][key] = sorted(set(inv["class_names"].get(key, [])) | cn)
+                    # instance attributes the confirmed tree stores through `self` anywhere in the class (state a later change
+                    # adds - a cache, a pool, a parallel index - is recognised as NEW by the rules that look for derived state)
+                    ia = set()
+                    for b in s.body:
+                        if isinstance(b, (ast.FunctionDef, ast.AsyncFunctionDef)):
+                            for n in ast.walk(b):
+                                if isinstance(n, ast.Attribute) and isinstance(n.ctx, (ast.Store, ast.Del)) and \
+                                        isinstance(n.value, ast.Name) and n.value.id in ("self", "cls"):
+                                    ia.add(n.attr)
+                    inv["instance_attrs"][key] = sorted(set(inv["instance_attrs"].get(key, [])) | ia)
                 elif isinstance(s, ast.Assign):
                     for t in s.targets:
                         for n in ast.walk(t):
